@@ -22,7 +22,7 @@
                         for a flat C-order list, so every theorem below covers all arrays
      interp1 s c v x  : peraxis_point [s] [c] (vget [length c] v) [x]      (one dimension) *)
 From Coq Require Import ZArith QArith Reals List Bool.
-From Verif Require Import Base.Num Base.Vec C15.Syntax Gen.InterpWeights C15.Model C15.Proofs.
+From Verif Require Import Base.Num Base.Vec C15.Syntax Gen.InterpWeights C15.Model C15.Call C15.Proofs C15.Refuted.
 Import ListNotations.
 Local Open Scope R_scope.
 
@@ -287,6 +287,61 @@ Theorem binary_search_is_prefix_count : forall (c : list R) x, Asc c ->
   bsearch (length c) c x 0 (length c) = ssleft c x.
 Proof. exact bsearch_ssleft. Qed.
 Print Assumptions binary_search_is_prefix_count.
+
+(* ------------------------------------------------------------------ *)
+(* The whole call, its recorded defects, and the provable restrictions.
+
+   [interp_call var kind schemes cvs dtype values input outarg] (C15/Call.v) is the public
+   interpolator call including the inputs it rejects (ValueErr / TypeErr) and those on which it
+   produces nan/inf (NonFinite); [var] carries the measured variant of each recorded defect.
+   Full statements of the property that are FALSE of this faithful model:
+
+     (F1) forall axis lengths >= 1: linear interpolation reproduces node values
+     (F2) forall inputs: a mesh-grid call and the point-array call on the same points agree
+     (F3) forall value dtypes incl. integer: per-axis 'nearest' returns the closest node value
+
+   Each is refuted by a computed witness (C15/Refuted.v, findings/C15.json), and the restriction
+   that IS provable is stated as a _partial theorem. *)
+Theorem F1_node_reproduction_single_node_axis_refuted :
+  exists (c v : list R) (var : variants),
+    length c = 1%nat /\ length v = 1%nat /\
+    interp_call var KLinear [] [c] DFloat v (IPoints [[nth 0 c 0]]) None <> Ok [nth 0 v 0].
+Proof. exact node_reproduction_single_node_axis_refuted. Qed.
+(* F1_partial = interpolation_reproduces_nodes above (linear axes need >= 2 nodes), together with: *)
+Theorem F1_partial_admissible_axes_never_degenerate : forall (l : list (scheme * list R)),
+  Forall (fun t => good_axis (fst t) (snd t)) l -> degenerate (map fst l) (map snd l) = false.
+Proof. exact good_not_degenerate. Qed.
+Print Assumptions F1_partial_admissible_axes_never_degenerate.
+
+Theorem F2_mesh_convention_first_axis_singleton_refuted :
+  exists (cvs : list (list R)) (v : list R) (mesh : list (list R)),
+    interp_call as_found KLinear [] cvs DFloat v (IMesh mesh) None = ValueErr /\
+    exists r, interp_call as_found KLinear [] cvs DFloat v (IPoints (cart mesh)) None = Ok r.
+Proof. exact mesh_convention_first_axis_singleton_refuted. Qed.
+(* with the defect repaired the two conventions give the same outcome on every well-formed call *)
+Theorem F2_partial_repaired_mesh_equals_points : forall (l : list (scheme * list R * list R)) (flat : list R),
+  let var := {| int_raises := false; mesh1_raises := false |} in
+  let ss := map m_s l in let cvs := map m_c l in let mesh := map m_xs l in
+  degenerate ss cvs = false -> malformed cvs (IPoints (cart mesh)) None = false ->
+  interp_call var KPerAxis ss cvs DFloat flat (IMesh mesh) None
+  = interp_call var KPerAxis ss cvs DFloat flat (IPoints (cart mesh)) None.
+Proof. exact repaired_mesh_equals_points. Qed.
+Print Assumptions F2_partial_repaired_mesh_equals_points.
+
+Theorem F3_peraxis_nearest_integer_values_refuted :
+  exists (c v : list R) (x : R),
+    interp_call as_found KPerAxis [SNearest] [c] DInt v (IPoints [[x]]) None = TypeErr /\
+    exists r, interp_call as_found KNearest [] [c] DInt v (IPoints [[x]]) None = Ok r.
+Proof. exact peraxis_nearest_integer_values_refuted. Qed.
+(* F3_partial = nearest_returns_closest_node above: on the values, the two evaluators agree. *)
+
+(* outside the defects, the call returns the values the theorems above speak about *)
+Theorem call_returns_model_values : forall (var : variants) k ss (cvs : list (list R)) flat i,
+  malformed cvs i None = false -> (mesh1_raises var && mesh1 i = false)%bool ->
+  degenerate (schemes_of k ss cvs) cvs = false ->
+  interp_call var k ss cvs DFloat flat i None = Ok (run k ss cvs flat i).
+Proof. exact interp_call_float_ok. Qed.
+Print Assumptions call_returns_model_values.
 
 (* ------------------------------------------------------------------ *)
 (* Non-vacuity: the hypotheses are satisfiable, and the same definitions run at Q. *)
